@@ -39,7 +39,7 @@ CId(r, idx) == <<MapOf(r.ty), KeyOf(r), r.ty, IF MapOf(r.ty) = "addr" THEN r.nl 
 Pct(cr, ttl, p) == cr + ttl * p * 10
 Ttl(r) == IF r.ttl = 0 THEN 1 ELSE r.ttl          \* the decoder turns the TTL 0 of a response record into 1
 
-Empty == [recs |-> <<>>, keys |-> {}, subs |-> <<>>, held |-> {}]      \* held: the <<map, key>> under which a record was ever stored
+Empty == [recs |-> <<>>, keys |-> {}, subs |-> <<>>, held |-> {}, lazy |-> {}]      \* held: the <<map, key>> under which a record was ever stored; lazy: addr entries emptied by DropAddrs, left to the next eviction
 Ids(c) == DOMAIN c.recs
 Under(c, m, k) == {x \in Ids(c) : x[1] = m /\ x[2] = k}
 Expired(c, x, t) == t >= c.recs[x].expires
@@ -71,7 +71,7 @@ Add(c, r, idx, t, forus) ==
                  ELSE [ttl |-> ttl, created |-> t, expires |-> Pct(t, ttl, 100), refresh |-> Pct(t, ttl, 80),
                        tg |-> r.tg, tgl |-> r.tgl, src |-> idx, fl |-> r.fl, sub |-> r.sub, name |-> r.n]
        IN [c |-> [recs |-> [x \in Ids(c) \cup {id} |-> IF x = id THEN e2 ELSE recs1[x]],
-                  keys |-> c.keys \cup {<<m, k>>}, subs |-> subs1, held |-> c.held \cup {<<m, k>>}],
+                  keys |-> c.keys \cup {<<m, k>>}, subs |-> subs1, held |-> c.held \cup {<<m, k>>}, lazy |-> c.lazy],
            stored |-> TRUE,
            new |-> IF old THEN c.recs[id].ttl <= 1 /\ ttl > 1 ELSE TRUE,
            ntimers |-> Cardinality({x \in bucket : hit(x)})]
@@ -88,7 +88,7 @@ Evict(c, t) ==
       subs1 == IF gonePtr = {} /\ srvGone = {} THEN c.subs ELSE Prune(c.subs, newRecs)
   IN [c |-> [recs |-> newRecs,
              keys |-> {kk \in c.keys : kk[1] = "ptr"} \cup {<<x[1], x[2]>> : x \in left},
-             subs |-> subs1, held |-> c.held],
+             subs |-> subs1, held |-> c.held, lazy |-> {}],
       svc  |-> {<<p[2], c.recs[p].tg>> : p \in {q \in ptrs : Expired(c, q, t) \/ c.recs[q].tg \in srvGone}},
       addr |-> {c.recs[x].name : x \in {y \in Ids(c) : y[1] = "addr" /\ Expired(c, y, t)}}]
 
@@ -154,12 +154,43 @@ Forget(c, ty) ==
        IN [recs |-> [x \in Ids(c) \ gone |-> c.recs[x]],
            keys |-> keys1 \ {<<"addr", h>> : h \in goneHosts},
            subs |-> Prune(c.subs, [x \in Ids(c) \ gone |-> c.recs[x]]),
-           held |-> c.held]
+           held |-> c.held, lazy |-> c.lazy \ {<<"addr", h>> : h \in goneHosts}]
+
+(* --------------------------- remove_records_on_intf ---------------------- *)
+(* the interface idx has gone: everything received on it is dropped          *)
+DropIntf(c, idx) ==
+  LET on(x) == c.recs[x].src = idx
+      ptrKeys == {kk[2] : kk \in {k2 \in c.keys : k2[1] = "ptr"}}
+      (* instances all of whose PTRs under a type were received on idx: fully removed *)
+      removed == UNION {{<<K, c.recs[p].tg>> : p \in {q \in Under(c, "ptr", K) : on(q)
+                            /\ ~\E r \in Under(c, "ptr", K) : ~on(r) /\ c.recs[r].tg = c.recs[q].tg}} : K \in ptrKeys}
+      allRemoved == {r[2] : r \in removed}
+      gone == {x \in Ids(c) : on(x) \/ (x[1] \in {"srv", "txt"} /\ x[2] \in allRemoved)}
+      left == Ids(c) \ gone
+      lostSrvTxt == {x[2] : x \in {y \in Ids(c) : y[1] \in {"srv", "txt"} /\ y[2] \notin allRemoved /\ on(y)}}
+      hostsHit == {x[2] : x \in {y \in Ids(c) : y[1] = "addr" /\ on(y)}}
+      viaHost == {x[2] : x \in {y \in left : y[1] = "srv" /\ c.recs[y].tgl \in hostsHit}}
+      newRecs == [x \in left |-> c.recs[x]]
+  IN [c |-> [recs |-> newRecs, keys |-> {<<x[1], x[2]>> : x \in left},
+             subs |-> Prune(c.subs, newRecs), held |-> c.held, lazy |-> {}],
+      removed |-> removed, modified |-> lostSrvTxt \cup viaHost]
+
+(* ----------------------- remove_addrs_on_disabled_intf ------------------- *)
+(* an IP version is disabled on (or has left) the interface idx: the addresses learned there are forgotten; *)
+(* the emptied map entries go with the next eviction                                                         *)
+DropAddrs(c, idx, v4, v6) ==
+  LET gone == {x \in Ids(c) : x[1] = "addr" /\ x[7] = idx /\ ((x[3] = "A" /\ v4) \/ (x[3] = "AAAA" /\ v6))}
+  IN [c EXCEPT !.recs = [x \in Ids(c) \ gone |-> c.recs[x]],
+               !.lazy = @ \cup {<<"addr", x[2]>> : x \in gone}]
+
+(* ------------------------------ get_known_answers ------------------------ *)
+(* what a query for (name, type) lists as known: shared records in the first half of their life *)
+Known(c, m, key, t) == {x \in Under(c, m, key) : ~c.recs[x].fl /\ ~(t > c.recs[x].created + c.recs[x].ttl * 500)}
 
 (* ------------------------------ statements ------------------------------- *)
 (* C20: no state is kept for a name of which no record is held; only a ptr      *)
 (* entry may stay, empty, for a type of which a PTR was once stored              *)
-KeysNeeded(c) == \A kk \in c.keys : Under(c, kk[1], kk[2]) # {} \/ (kk[1] = "ptr" /\ kk \in c.held)
+KeysNeeded(c) == \A kk \in c.keys : Under(c, kk[1], kk[2]) # {} \/ (kk[1] = "ptr" /\ kk \in c.held) \/ kk \in c.lazy
 (* C20: the subtype table only names instances a held subtype PTR points to    *)
 SubsNeeded(c) == \A i \in DOMAIN c.subs : \E p \in Under(c, "ptr", c.subs[i]) : c.recs[p].tg = i
 (* C11: lifetime arithmetic                                                     *)
